@@ -25,6 +25,7 @@ mod inject;
 mod tenantstore;
 mod tenantapi;
 mod rbac;
+mod restjson;
 mod conninject;
 mod reload;
 
@@ -69,6 +70,7 @@ fn main() {
         "tenantstore-replay" => tenantstore::replay(rest),
         "tenantapi-replay" => tenantapi::replay(rest),
         "rbac-replay" => rbac::replay(rest),
+        "restjson-replay" => restjson::replay(rest),
         "conninject-replay" => conninject::replay(rest),
         "reload-replay" => reload::replay(rest),
         "for-expand" => misc::for_expand(rest),
